@@ -23,8 +23,12 @@ def run(ctx, model_ok):
                        "(faces, edges, corners, hull, bases, axis, wire, extension lines, r/r0 = 0.05 and 1, phi limits) exactly and at +-1, +-4 ulp, denormal offsets, 1e12 distance; "
                        "all four fields; distinct = observer rows")
     ctx.cov["samples"] = [ost]
-    ctx.cov["not_shown"] = ["IEEE overflow/underflow, NaN from inf-inf, float termination of the cel/el3 loops: outside exact real arithmetic, watchdogged oracle only",
-                            "definedness of Cuboid/Cylinder/CylinderSegment/Circle/Triangle closed forms off their special sets (kernels not ported to the real carrier)"]
+    ctx.cov["not_shown"] = ["IEEE overflow/underflow, NaN from inf-inf, float termination of the cel/el3 loops: outside exact real arithmetic, watchdogged oracle only "
+                            "(exact-arithmetic termination with an explicit iteration bound IS proved for the scalar loops cel_iter0 and cel0, and for BHJM_circle on every input)",
+                            "termination of the vectorised celv (per entry the cel0 loop executed at least once, without the kc == 0 guard) and of the el3 iterations: not modelled "
+                            "(cel_iterv and the dispatcher cel_iter ARE modelled, tied by the kern stream and proved to terminate on batches)",
+                            "definedness of Cuboid/Cylinder/CylinderSegment/Triangle closed forms off their special sets (kernels not ported to the real carrier); "
+                            "Circle: divisors of the general and on-axis branches and of the cel_iter0 loop are proved positive, cel0's divisors (pp, g in the p <= 0 prologue) are not"]
 
 
 def replay(ctx, payload):
